@@ -29,6 +29,7 @@ Definition trusted_key (ks : keyset) (e : sigentry) (k : jwk) : bool :=
   match ks with
   | KSProfile client store =>
       existsb (fun x => (fst (fst x) =s client) && (snd (fst x) =s se_kid e) && jwk_eqb (snd x) k) store
+  | KSStatic k0 => jwk_eqb k0 k
   | _ => use_ok "sig" k && alg_fits (k_ty k) (se_alg e) && kid_consistent (se_kid e) k
   end.
 
@@ -81,6 +82,7 @@ Definition sig_complete (allowed : list string) (ks : keyset) (t : token) (parse
           existsb (fun k => selectable (se_kid e) (se_alg e) served k && sym_verify k e p
                             && (no_compatible (se_kid e) (se_alg e) cached
                                 || selectable (se_kid e) (se_alg e) cached k)) served
+      | KSStatic k => sym_verify k e p
       | KSProfile client store =>
           match registered_once store client (se_kid e) with
           | Some k => sym_verify k e p
